@@ -511,6 +511,7 @@ def check_driver_guards(ctx, prog, bits, errs):
     table = [
         ("ncmpio_wait", "define-mode", D, 0, "NC_EINDEFINE"),
         ("ncmpio_wait", "independent-mode", I, D, "NC_EINDEP"),       # a collective wait (reqMode without NC_REQ_INDEP)
+        ("ncmpio_wait", "collective-mode", 0, I | D, "NC_ENOTINDEP"),  # an independent wait (reqMode = NC_REQ_INDEP), any count
         ("ncmpio_sync", "define-mode", D, 0, "NC_EINDEFINE"),
         ("ncmpio_sync_numrecs", "define-mode", D, 0, "NC_EINDEFINE"),
         ("ncmpio_begin_indep_data", "define-mode", D, 0, "NC_EINDEFINE"),
@@ -527,6 +528,17 @@ def check_driver_guards(ctx, prog, bits, errs):
                 init = init.set(("m", ("v", p["id"], "ncp"), "flags"), AVal("bits", k1=k1, k0=k0)).set("$inj", ONE)
             if p["n"] == "reqMode" and label == "independent-mode":
                 init = init.set(("v", p["id"], "reqMode"), ZERO)
+            if p["n"] == "reqMode" and label == "collective-mode":
+                rq = None
+                for u in prog.units.values():
+                    if "NC_REQ_INDEP" in u.macros:
+                        try:
+                            rq = int(u.macros["NC_REQ_INDEP"].strip("() "), 0)
+                        except ValueError:
+                            pass
+                        break
+                ctx.require(rq, "macro NC_REQ_INDEP not found / not a constant")
+                init = init.set(("v", p["id"], "reqMode"), fin(rq))
         ex = Explorer(fn, dom).run(init)
         ctx.states += ex.visited
         bad = None
